@@ -147,9 +147,7 @@ where
     let op = if ops.0 == ops.1 {
         ops.0
     } else {
-        let o = nd::u8();
-        nd::assume(o >= ops.0 && o <= ops.1);
-        o
+        ops.0 + nd::below(ops.1 - ops.0 + 1)
     };
     let new = NI as u8;
     // the operations below create the token `new` exactly when they evaluate T::mk(new)
@@ -248,10 +246,34 @@ where
             7 => {
                 s.clear();
             }
-            _ => {
+            8 => {
                 // deletion of the entity purges by index
                 forget(s);
                 specs::storage::AnyStorage::drop(&mut masked, &[h]);
+            }
+            _ => {
+                // partial drain: only the indices that are also in an arbitrary bit set
+                let mut sel = BitSet::new();
+                let mut in_sel = [false; NI];
+                for i in 0..NI {
+                    if nd::bool() {
+                        sel.add(ids[i]);
+                        in_sel[i] = true;
+                    }
+                }
+                for (v, id) in (s.drain(), &sel).join() {
+                    let tk = v.tok();
+                    let mut ok = false;
+                    for k in 0..NI {
+                        if k == tk as usize && inside[k] && in_sel[k] && ids[k] == id {
+                            ok = true;
+                            inside[k] = false;
+                        }
+                    }
+                    assert!(ok, "C08: partial drain handed back a value it should not have (or twice)");
+                    take_back(v, &mut returned);
+                }
+                forget(sel);
             }
         }
     }
